@@ -37,7 +37,7 @@ CLAIMED = {
    design="6/C07", technique="Coq refinement proof (byte loop with Fault-ing reads = walk over decoded units = longest fitting prefix); tables re-translated from C and re-checked by vm_compute; differential check with guard pages; extracted boolean spec as oracle"),
  "C11": dict(
    text="Machine-checked proof (Coq 8.16, no axioms) over the model of term.c's output path, for every buffer size (incl. none) and every history of "
-        "writes, formatted writes and flushes: delivered chunks ++ pending = the unbuffered stream (C11_stream, C11_transparent), every chunk 0 < len <= cap "
+        "writes, formatted writes and flushes: delivered chunks ++ pending = the unbuffered stream (C11_stream, C11_transparent, stated per sink: function preferred over descriptor in both write_str and flush), every chunk 0 < len <= cap "
         "(C11_chunk_bound_run), flush drains (C11_flush_drains), the chunk loop terminates (C11_terminates); the extracted checker is proved sound "
         "(C11_checker_sound). Tie: exhaustive sizes 0..6 x <=4 writes of 0..8 bytes x flush masks, random large histories, and the descriptor path through a packet-mode pipe.",
    note="Assumes the buffer is resized only while nothing is pending (as the property states) and that an output function or descriptor is set; vsnprintf and "
@@ -144,47 +144,20 @@ CLAIMED = {
         "sanitizers, not proved.",
    design="6/C08", technique="Coq state-and-fault monad over an explicit heap, list-segment reasoning, mutual induction for unref/destroy; sanitizer-backed correspondence (model faults/leaks iff ASan/LSan reports), fork per case"),
  "C01": dict(
-   text="Machine-checked proof (Coq 8.16, no axioms) over the model of src/window.c (+ a transliteration of rectset.c) on an abstract per-cell render buffer and "
-        "a terminal with an ARBITRARY scroll oracle: do_expose paints exactly the painter's-model composition for any tree (C01_do_expose_paints), a flush - "
-        "with any pending restack queue - turns 'every cell shows the composition or lies in the damage' into 'every cell shows the composition' (C01_flush), "
-        "and new/close/show/hide/queued+applied restacks/geometry changes with their exposes/expose/focus/cursor setters/terminal resize preserve that "
-        "invariant for all trees and rectangles (C01_preserved, C01_term_resize), hence by induction every history over that alphabet "
-        "(C01_history_partial, C01_history_flushed_partial). PARTIAL: preservation by the three scroll operations is not proved; scrolls are covered by the "
-        "three-way correspondence (C vs model vs extracted `compose` oracle) over exhaustive <=3-op histories on 6 base trees x 3 terminals + random histories "
-        "with 5 scroll-acceptance policies (accept / refuse / partial).",
-   note="Holds for the repaired code (fix: e6c2760 and the rectset fix e28fb20); pinned behaviour refuted by C01_refuted_18. Scroll preservation additionally needs "
-        "C05's exactness/disjointness facts for the transliterated rectangle set (WinRectSet.v), not yet connected. Trusted: Coq kernel; hand-written model tied by "
-        "differential testing; the abstract render buffer/terminal (exact for single-width content); handlers repaint what they are asked (the property's proviso).",
+   text="Machine-checked proof (Coq 8.16, no axioms) over the model of src/window.c on the PROVED rectangle-set model of C05 (RectSetDefs.v), an abstract per-cell render buffer and a terminal with an ARBITRARY scroll oracle (accept / partially accept / refuse): do_expose paints exactly the painter's-model composition for any tree (C01_do_expose_paints); a flush - with any pending restack queue, and with expose handlers that RE-ENTER the API (show/hide/expose/restack, close or destroy of any window incl. their own) - re-establishes 'every cell shows the composition or lies in the damage' with the flags consistent (C01_flush, C01_reentrant_flush, C01_reentrant_flags); every operation of the alphabet new/close/show/hide/queued+applied restacks/geometry changes with their exposes/expose/focus/cursor setters/terminal resize/scroll/scrollrect/scroll_with_children preserves the invariant (C01_preserved_all, C01_scroll*, C01_damage_inv), hence by induction EVERY history with flushes at arbitrary points ends with every cell equal to the composition (C01_history, C01_history_flushed). Tie: three-way correspondence (C vs model vs extracted `compose` oracle) over exhaustive <=3-op histories on 6 base trees x 3 terminals + random histories with 5 scroll policies and re-entrant handlers, on the mock terminal and a harness grid terminal.",
+   note="Holds for the repaired code (fix: e6c2760, e28fb20, a53c937, 9e11279); pinned behaviour refuted by C01_refuted_18. Side conditions: visible windows have non-empty rectangles (scrolls); ids unique over the forest (an invariant of the history model, C01_forest_unique_*); handlers repaint what they are asked and the application exposes old and new areas after a geometry change (the property's provisos). Trusted: Coq kernel; hand-written model tied by differential testing; the abstract render buffer/terminal (exact for single-width content and line cells); extraction.",
    design="6/C01-C02", technique="Coq invariant proof (ScreenInv) by induction over operation histories, tree induction for do_expose; extracted compose as oracle; differential check on mock and harness grid terminals"),
  "C02": dict(
-   text="Machine-checked proof (Coq 8.16, no axioms) over the model of window.c's expose/flush on an abstract per-cell render buffer: for ALL window trees, damage "
-        "lists and ALL drawing programs a handler may run (text, erase, char, lines, eraserect, skip, clear at any coordinates, negative and beyond the window) "
-        "the only terminal cells a flush changes lie in the damage and belong, in the composition, to the window that drew them, at the window-relative "
-        "position (C02_confined, C02_programs); every rectangle handed to a handler lies within its window (C02_rect_in_bounds); rectangles handed to one "
-        "window in one flush are disjoint given the rectset invariant (C02_rects_disjoint_partial). Tie: scripted hostile handlers on the mock terminal and a "
-        "harness-owned grid terminal; grid before/after each flush, tree and all handed rectangles compared.",
-   note="Holds for the repaired code (fix: 1e6587a; pinned refuted by C02_refuted_27). The disjointness clause is conditional on the C05 invariant (proved for "
-        "RectSetDefs.v, the window model uses its own transliteration WinRectSet.v; the two are tied to the same C by testing, not yet to each other by proof). "
-        "Trusted: Coq kernel; model; abstract render buffer (exact for single-width content); extraction.",
+   text="Machine-checked proof (Coq 8.16, no axioms) over the model of window.c's expose/flush on an abstract per-cell render buffer: for ALL window trees, damage lists and ALL drawing programs a handler may run (text, erase, char, lines, eraserect, skip, clear at any coordinates, negative and beyond the window) the only terminal cells a flush changes lie in the damage and belong, in the composition, to the window that drew them, at the window-relative position (C02_confined, C02_programs); stronger, every cell shows exactly what its owner's program alone leaves there, line segments included (C02_exact, C02_lines); every rectangle handed to a handler lies within its window (C02_rect_in_bounds); rectangles handed to one window in one flush are pairwise disjoint, unconditionally, from the C05 invariant of the damage set (C02_rects_disjoint, C02_damage_disjoint). Tie: scripted hostile handlers (incl. line drawing in equivalent pens, savepen/restore brackets) on the mock terminal and a harness-owned grid terminal; grid before/after each flush, tree and all handed rectangles compared.",
+   note='Holds for the repaired code (fix: 1e6587a; pinned refuted by C02_refuted_27). Trusted: Coq kernel; model; abstract render buffer (exact for single-width content and line cells); extraction.',
    design="6/C01-C02", technique="Coq proof over arbitrary drawing programs via clip/mask/translation bookkeeping of the abstract render buffer; extracted `owner` as oracle; differential check"),
  "C14": dict(
-   text="Machine-checked proof (Coq 8.16, no axioms) over the model of window.c's input routing: for every tree (overlaps, nesting, hidden subtrees, stealing "
-        "windows, focus placement), every key / mouse event at every cell and every claim pattern of non-mutating handlers, the windows offered the event are "
-        "exactly the prefix of key_order / mouse_order up to the first claimer, with positions relative to the receiver (C14_key, C14_mouse, "
-        "C14_mouse_relative, C14_term_key/_mouse/_mouse_seq); hidden windows and their descendants never receive input (C14_hidden_never); synthesised drag "
-        "events are well-bracketed w.r.t. the press (C14_drag); a window closing/unreferencing ITSELF leaves delivery to the rest unchanged "
-        "(C14_mutation_self_partial). Tie: delivery logs over exhaustive cell x claimer sweeps and random trees with scripted close/destroy inside handlers under ASan.",
-   note="Holds for the repaired code (fix: abd7bb4, 36efd83). PARTIAL for mutation: general theorems for destroying or closing ANOTHER window during routing are "
-        "missing (computed examples + correspondence only; the oracle demands the multiset of the remaining deliveries there). Trusted: Coq kernel; model; extraction.",
+   text="Machine-checked proof (Coq 8.16, no axioms) over the model of window.c's input routing: for every tree (overlaps, nesting, hidden subtrees, stealing windows, focus placement), every key / mouse event at every cell and every claim pattern, the windows offered the event are exactly the prefix of key_order / mouse_order up to the first claimer, with positions relative to the receiver (C14_key, C14_mouse, C14_mouse_relative, C14_term_*); hidden windows and their descendants never receive input (C14_hidden_never); synthesised drag events are well-bracketed w.r.t. the press (C14_drag); a handler closing or destroying ITSELF or ANY OTHER non-root window during routing neither crashes nor derails delivery to the rest (C14_mutation_no_crash, C14_mutation_rest: multiset for keys, order for mouse; C14_mutation_destroy, C14_mutation_term_mouse). Tie: delivery logs over exhaustive cell x claimer sweeps and random trees with scripted close/destroy inside handlers under ASan.",
+   note='Holds for the repaired code (fix: abd7bb4, 36efd83, 155335a). The mutation theorems assume one armed mutation per event whose target is a non-root window present in the tree. Trusted: Coq kernel; model; extraction.',
    design="6/C14", technique="Coq proof over a fuel-based pointer-following model against structural order specifications; extracted spec as oracle; differential check with handlers mutating the tree"),
  "C15": dict(
-   text="Machine-checked proof (Coq 8.16, no axioms) over the model of window.c's focus and cursor code: after a flush (any restack queue) the terminal cursor is "
-        "exactly where cursor_spec puts it - end of the focus chain focused, chain visible, cursor enabled, cell inside every ancestor and owned by that window "
-        "in the composition - or hidden (C15_restore, C15_after_flush, C15_flush_idle), for all trees with unique ids; take_focus emits every OUT before every "
-        "IN and exactly the events the focus specification demands, parents that asked are told of both (C15_focus_order, C15_focus_events). Tie: cursor "
-        "state after every flush and focus event logs over exhaustive <=3-op sequences on 3 base trees + random histories, on the mock terminal and a harness grid driver.",
-   note="Holds for the repaired code (fix: 5f3c28f, b19a835, f73837d; pinned refuted by C15_refuted_19). PARTIAL: C15_requested (every operation that changes "
-        "cursor_spec sets needs_restore or damage) is open, so the whole-history form is carried by the correspondence check. Trusted: Coq kernel; model; extraction.",
+   text="Machine-checked proof (Coq 8.16, no axioms) over the model of window.c's focus and cursor code: after a flush (any restack queue) the terminal cursor is exactly where cursor_spec puts it - end of the focus chain focused, chain visible, cursor enabled, cell inside every ancestor and owned by that window in the composition - or hidden (C15_restore, C15_after_flush, C15_flush); every operation that can change cursor_spec leaves a restore request or damage (C15_requested), hence for EVERY history of take-focus, cursor position/visibility/shape changes, show/hide, restack, move, close and expose the cursor is right after each flush (C15_history, C15_history_flushed); take_focus emits every OUT before every IN and exactly the events the focus specification demands, parents that asked are told of both (C15_focus_order, C15_focus_events). Tie: cursor state after every flush and focus event logs over exhaustive <=3-op sequences on 3 base trees + random histories, on the mock terminal and a harness grid driver.",
+   note='Holds for the repaired code (fix: 5f3c28f, b19a835, f73837d, 19a3650; pinned refuted by C15_refuted_19). The history alphabet excludes scrolls and terminal resize (they do not touch focus state; covered by the correspondence). Trusted: Coq kernel; model; extraction.',
    design="6/C15", technique="Coq proof (structural recursion over the tree, path induction) against cursor_spec/focus_spec; extracted boolean spec as oracle; differential check"),
  "C03": dict(
    text="Machine-checked proof (Coq 8.16, no axioms) that the model of src/renderbuffer.c's drawing operations REFINES a per-cell last-writer-wins specification "
@@ -199,17 +172,9 @@ CLAIMED = {
         "RBDefs.v tied by differential testing of raw structs; extraction.",
    design="6/C03", technique="Coq refinement proof (row-level make_span lemma, pointwise grid reasoning, induction over programs); extracted-model vs C differential check on raw cell structs; extracted boolean spec as oracle"),
  "C04": dict(
-   text="PARTIAL. Machine-checked (Coq 8.16, no axioms): (1) C04_glyphs - for ALL 255 line masks the glyph table RE-TRANSLATED from src/linechars.inc on every "
-        "run maps to the box-drawing character with exactly the mask's arms (directions always, styles whenever Unicode has the character) - a complete "
-        "enumeration of a finite domain against a hand-written arms table of U+2500-257F; (2) flushing any well-formed buffer never faults, terminates and "
-        "leaves the buffer empty with all auxiliary state reset. The cell-by-cell equality of the flushed terminal with the buffer content (C04_flush_full) "
-        "is STATED, NOT PROVED: it is carried by differential testing of the exact terminal operation log and final grid of the C against the executable "
-        "flush model, and of the C's observations against the extracted cell-wise specification, over exhaustive small programs, all masks, and texts mixing "
-        "widths 0/1/2 cut at every column by later ops, clips and masks, on the mock terminal, a harness grid driver and the xterm driver.",
-   note="Holds for the repaired code (fix: 64e35ba, 92f6326, a61eeac). Assumes, as the property states, that the terminal advances by the library's own widths. "
-        "Trusted: Coq kernel; models RBDefs/RBFlushDefs incl. the mock-terminal model; the arms table (reading of the Unicode box-drawing block); "
-        "tools/tables/linechars.py; extraction.",
-   design="6/C04", technique="vm_compute enumeration of the re-translated glyph table + soundness lemma; no-fault/termination/reset proof by span-boundary invariant; differential check of operation logs and grids; extracted cell-wise spec as oracle"),
+   text="Machine-checked proof (Coq 8.16, no axioms) of the FULL property on the model: C04_flush_full / C04_flush_full_reachable - for every buffer a drawing program reaches (C03/C13 operations), flushed onto any terminal at least as large, with arbitrary prior content, cursor and pen, erasech(MAYBE) moving the cursor or not, and any mix of zero-, single- and double-width characters cut at arbitrary columns, the terminal run succeeds and every text/erase/char/line cell appears at its own line and column with its own pen, skipped cells are untouched, and the buffer is left empty with all auxiliary state reset; C04_flush_columns (every print/erase issued at a tracked position; covered cells are exactly the non-skip cells, each once), C04_text_columns (a span of n columns is flushed as exactly n columns), C04_flush_payload (through the xterm driver the hidden part of a string is never sent), C04_glyphs (all 255 line masks of the glyph table RE-TRANSLATED from src/linechars.inc have exactly the mask's arms). Tie: exact terminal operation logs and final grids of the C vs the executable flush model, and the C's observations vs the extracted cell-wise spec, over exhaustive small programs, all masks, width-mix texts cut at every column, on the mock terminal (both legal MAYBE behaviours), a harness grid driver and the xterm driver.",
+   note="Holds for the repaired code (fix: 64e35ba, 92f6326, a61eeac). Assumes, as the property states, that the terminal advances by the library's own widths (the mock terminal's grapheme loop is modelled and proved equal to that layout: C04_print_layout). Restricted width function (ASCII, Latin-1, U+0300-036F, U+FF01-FF60) and 4-attribute pens as in C03. Trusted: Coq kernel; models RBDefs/RBFlushDefs tied by differential testing; the arms table (reading of the Unicode box-drawing block); tools/tables/linechars.py; extraction. The xterm driver's escape encoding is C09's matter.",
+   design="6/C04", technique="Coq simulation proof of the flush op list against a terminal model (cursor tracking from unknown, width layout, overlay on arbitrary prior content) on top of the C03 refinement; vm_compute enumeration of the re-translated glyph table; differential check of operation logs and grids; extracted cell-wise spec as oracle"),
  "C13": dict(
    text="Machine-checked proof (Coq 8.16, no axioms): the model of copyrect (within one buffer, no translation in force), moverect and blit refines the cell-wise "
         "specification for EVERY well-formed reachable buffer content, every source rectangle inside the buffer and every destination - all overlaps, all "
